@@ -95,7 +95,7 @@ def replay(run, ob, inputs):
                     g.pop(k)
             req = dict(mode="replay", function=fn, inputs=g)
             payload["inputs"] = req
-            if "a" in g:
+            if "a" in g or "c2" not in ins:
                 native = common.run_native("monitor/native_c17.py", req)
     except Exception as e:          # replay failure is reported, not fatal
         payload["replay_error"] = repr(e)
